@@ -14,7 +14,8 @@ def custom_native(ip, runner):
 
 def build(chk, ip, runner):
     chk.design_ref = 'DESIGN.md section 5 C11'
-    chk.units = c11_hostkey.small_units()
+    chk.units = c11_hostkey.small_units() + c11_hostkey.perform_units()
+    chk.stubs = c11_hostkey.perform_stubs()
     chk.lemmas = ['val_be_word']
     chk.customs = [custom_native]
     chk.level = 'other'
